@@ -1,12 +1,14 @@
 """C08 - withdrawn services stay withdrawn: complete goodbyes, no resurrection (E1, full product)."""
 from __future__ import annotations
 
+import asyncio
 import itertools
 from typing import Any, Dict, List, Optional, Tuple
 
 from .. import wire
 from ..explore import Stats, digest, explore_product
 from ..models.cache_model import ident
+from ..world import HarnessError
 from ..models.responder_model import Svc
 from ..scen import Peer, RandPolicy, decoded_trace, make_info, register, svc_records
 from ..world import World
@@ -72,6 +74,10 @@ def grid(tier: str) -> List[Dict[str, Any]]:
     # the synchronous API from a foreign thread: unregister_service alone, and followed at once by close()
     base = [q for q in pts if q["mode"] == "unregister" and q["second"] is None and q["jitter"] == 0.0]
     pts += [dict(q, mode="sync_unregister") for q in base[::2]] + [dict(q, mode="sync_unregister_close") for q in base[1::2]]
+    pts += [dict(q, mode="sync_update_unregister") for q in base[::3]]
+    for gap in (0, 100, 230, 400, 460):
+        pts += [dict(q, mode="unawaited_update", gap_ms=gap) for q in base[::5]]
+        pts += [dict(q, mode="unawaited_register", gap_ms=gap) for q in base[2::7]]
     # the service is withdrawn through an equal but different description object (re-created by the application)
     pts += [dict(q, obj="recreated") for q in pts if q["mode"] == "unregister"][::3]
     # the other service was moved to / from the withdrawn service's host name by an update before the query arrives
@@ -205,6 +211,33 @@ def run_point(p: Dict[str, Any], verbose: bool = False) -> Tuple[Optional[Dict[s
             # judged for the service withdrawn by unregister_service (close withdraws the others in datagrams of their own)
             withdrawn_svcs = [svcs[0]]
             with_addr = p["shape"] != "shared-host"
+        elif mode == "sync_update_unregister":
+            # the synchronous API again: the description is announced anew (update_service) and the service withdrawn by the
+            # very next statement - the update's announcements must all be out before the goodbyes begin
+            with w.outside():
+                host.zc.update_service(infos[0])
+                host.zc.unregister_service(infos[0])
+            task = None
+            withdrawn_svcs = [svcs[0]]
+            with_addr = p["shape"] != "shared-host"
+        elif mode in ("unawaited_update", "unawaited_register"):
+            # the usual way of calling the asyncio API: `await azc.async_update_service(info)` returns once the first announcement
+            # is out and hands back a task for the other two, which few applications wait for; the service is withdrawn
+            # `gap_ms` later, while that task is still at work
+            async def hurried() -> None:
+                if mode == "unawaited_update":
+                    await host.zc.async_update_service(infos[0])
+                else:
+                    await host.zc.async_unregister_service(infos[0])   # (first withdrawn properly ...
+                    await asyncio.sleep(2.0)
+                    await host.zc.async_register_service(infos[0])     # ... then registered again, announcements not awaited)
+                if p.get("gap_ms"):
+                    await asyncio.sleep(p["gap_ms"] / 1000)
+                hurried.t_unreg = w.now_ms
+                await (await host.zc.async_unregister_service(infos[0]))
+            task = w.spawn(hurried())
+            withdrawn_svcs = [svcs[0]]
+            with_addr = p["shape"] != "shared-host"
         elif mode == "unregister_all":
             task = w.spawn(host.azc.async_unregister_all_services())
             withdrawn_svcs = svcs
@@ -223,7 +256,12 @@ def run_point(p: Dict[str, Any], verbose: bool = False) -> Tuple[Optional[Dict[s
         if task is not None and not task.done():
             problems.append("withdrawal call did not finish")
         # ---- oracle on the trace of the withdrawing host
-        trace = decoded_trace(w, host.name, since_ms=t0 + U_MS)
+        t_base = t0 + U_MS
+        if mode in ("unawaited_update", "unawaited_register"):
+            t_base = getattr(hurried, "t_unreg", None)
+            if t_base is None:
+                raise HarnessError("the withdrawal under test was never reached")
+        trace = decoded_trace(w, host.name, since_ms=t_base - 0.001)
         must = set()
         for s in withdrawn_svcs:
             for r in svc_records(s, with_addr):
@@ -234,7 +272,7 @@ def run_point(p: Dict[str, Any], verbose: bool = False) -> Tuple[Optional[Dict[s
                 continue
             zero = {i for i, ttl in d.idents_ttl() if ttl == 0}
             if zero & must:
-                goodbyes.append((d.t_ms - t0 - U_MS, zero, d))
+                goodbyes.append((d.t_ms - t_base, zero, d))
         times = [round(t, 3) for t, _, _ in goodbyes]
         if len(goodbyes) != 3:
             problems.append(f"goodbyes: {len(goodbyes)} goodbye datagrams at {times}, expected three")
@@ -258,12 +296,12 @@ def run_point(p: Dict[str, Any], verbose: bool = False) -> Tuple[Optional[Dict[s
         if len(goodbyes) >= 3:
             t3 = goodbyes[2][0]
             for d in trace:
-                if d.t_ms - t0 - U_MS <= t3:
+                if d.t_ms - t_base <= t3:
                     continue
                 for i, ttl in d.idents_ttl():
                     if ttl > 0 and (i in must or (with_addr and any(i[0] == "NSEC" and i[1] == s.name.lower()
                                                                     for s in withdrawn_svcs))):
-                        problems.append(f"resurrection: {i} transmitted with TTL {ttl} at +{d.t_ms - t0 - U_MS:.1f} ms, "
+                        problems.append(f"resurrection: {i} transmitted with TTL {ttl} at +{d.t_ms - t_base:.1f} ms, "
                                         f"after the third goodbye (+{t3})")
                         break
         excs = w.exceptions()
